@@ -252,6 +252,8 @@ def run(tier):
     # (P) proofs
     model_ok, _ = vlib.coq_make(["Model/MiscModel.vo"])
     vlib.check_theorems(rep, PID, THEOREMS, ["Proofs/MiscProofs.vo"])
+    if tier == "thorough":
+        vlib.coqchk(rep, PID, THEOREMS)
     vlib.audit(rep)
     # (T2) correspondence + property oracles on the implementation
     streams = gen_cases(tier, rng)
